@@ -309,6 +309,74 @@ def run(tier):
                 os.unlink(p)
             except OSError:
                 pass
+    # ---- 5. binding T: executions of the real pool on free-running pthreads validated against PoolAbs ----------
+    tbin = work + "/h/trace_pool"
+    inc = ["-I" + REPO + "/include", "-I" + REPO, "-DHAVE_CONFIG_H", "-D_GNU_SOURCE"]
+    subprocess.check_call(["gcc", "-O1", "-g", "-w"] + inc + ['-DREPO_THREADPOOL_C="%s/lib/util/src/threadpool.c"' % REPO,
+                           H + "/trace_pool.c", REPO + "/lib/util/src/alloc.c", "-lpthread", "-o", tbin])
+    nproc, nexec = (4, 250) if tier == "quick" else (16, 2000)
+    tcfg = work + "/tp.cfg"
+    write_cfg(tcfg, spec="TSpec", constants={"N": 4096}, invariants=["TraceOK", "TraceFifoOnce"], properties=["RefinesPoolAbs"], deadlock=False)
+
+    def validate(path):
+        r = run_tlc("TracePool", tcfg, workers=1, timeout=1200, env={"TRACE": path}, heap="8g")
+        if r["ok"]:
+            return None, r
+        if r["violated"] in ("TraceOK", "TraceFifoOnce", "RefinesPoolAbs"):
+            st = r["trace"][-1] if r["trace"] else {}
+            return (r["violated"], st.get("bad") or st.get("l")), r
+        raise RuntimeError("trace validation did not run: %s" % r["out"][-600:])
+
+    def record(k):
+        path = "%s/pooltrace_%d.ndjson" % (work, k)
+        with open(path, "wb") as f:
+            try:
+                subprocess.run([tbin, str(SEED * 131 + k), str(nexec), "8" if k % 2 else "3", "40" if k % 3 else "6"], stdout=f, stderr=subprocess.DEVNULL, timeout=600)
+            except subprocess.TimeoutExpired:
+                f.write(b'{"e":"Hang"}\n')
+        return path
+
+    with ThreadPoolExecutor(max_workers=4) as ex:
+        paths = list(ex.map(record, range(nproc)))
+    nlines = nexecs = 0
+    for k, path in enumerate(paths):
+        lines = open(path).read().split("\n")
+        nlines += len(lines)
+        nexecs += sum(1 for x in lines if '"Reset"' in x) - 1
+        verdict, r = validate(path)
+        ev.tlc(r, "TracePool free-running executions, file %d" % k)
+        if verdict:
+            ln = verdict[1] if isinstance(verdict[1], int) else 0
+            what = lines[ln - 1] if 0 < ln <= len(lines) else "?"
+            kind = "pool-deadlock" if "Hang" in what else "pool-trace-rejected"
+            rep.violation(kind, "an execution of the real pool on free-running threads is not a behaviour of PoolAbs (%s): line %s %s, preceded by %s"
+                          % (verdict[0], ln, what, lines[max(0, ln - 6):ln - 1]), artefact=path, data={"line": ln, "event": what})
+    ev.set("free_running_executions_validated", nexecs)
+    ev.set("free_running_events_validated", nlines)
+    # anti-vacuity: corrupted copies of an accepted trace must be rejected
+    good = open(paths[0]).read().split("\n")
+    muts = {}
+    deq = [i for i, x in enumerate(good) if '"DeqRet"' in x and '"t":0' not in x]
+    cbe = [i for i, x in enumerate(good) if '"CbEnd"' in x]
+    cbs = [i for i, x in enumerate(good) if '"CbStart"' in x]
+    if len(deq) > 3:
+        m = list(good); m[deq[1]], m[deq[2]] = m[deq[2]], m[deq[1]]; muts["two tickets handed back in swapped order"] = m
+    if cbe:
+        m = list(good); del m[cbe[len(cbe) // 2]]; muts["a ticket handed back that was never processed"] = m
+    if cbs:
+        m = list(good); m.insert(cbs[len(cbs) // 2] + 1, m[cbs[len(cbs) // 2]]); muts["a callback entered twice"] = m
+    rejected = {}
+    for name, m in muts.items():
+        mp = work + "/mut.ndjson"
+        open(mp, "w").write("\n".join(m))
+        verdict, r = validate(mp)
+        rejected[name] = verdict is not None
+    ev.set("corrupted_traces_rejected", rejected)
+    if not rejected or not all(rejected.values()):
+        print("SELF-CHECK-FAILED: corrupted pool traces accepted: %s" % rejected)
+        ev.write()
+        return 2
+    replays += nexecs
     ev.set("random_schedules", nrand)
     ev.set("random_schedules_cut_by_step_bound", unfinished)
     ev.set("traces_validated_against_impl", replays)
